@@ -98,7 +98,7 @@ def fields(line):
 
 
 # ----------------------------------------------------------------------------------------------- cgio / ADF level
-IO_KINDS = ["ok", "ok", "ok", "ok", "missing", "garbage", "badhdr", "dir"]
+IO_KINDS = ["ok", "ok", "okL", "okB", "okE", "ok", "missing", "garbage", "badhdr", "dir"]   # ok* = NATIVE / LEGACY / IEEE_BIG / IEEE_LITTLE layout
 DTYPES = ["C1", "B1", "I4", "U4", "I8", "U8", "R4", "R8", "X4", "X8"]          # every data type the back ends store
 MLL_DTYPES = ["Integer", "LongInteger", "RealSingle", "RealDouble", "Character", "ComplexSingle", "ComplexDouble"]
 
@@ -107,10 +107,10 @@ def gen_io(rng, big=False):
     """a world (files, kinds, link nodes) and a session; every handle an open may have returned is closed at the end"""
     nk = rng.randint(2, 6 if big else 5)
     kinds = [rng.choice(IO_KINDS) for _ in range(nk)]
-    kinds[0] = "ok"
+    kinds[0] = rng.choice(["ok", "ok", "okL", "okB"])
     if rng.random() < 0.8:
-        kinds[1] = "ok"
-    oks = [i for i, k in enumerate(kinds) if k == "ok"]
+        kinds[1] = rng.choice(["ok", "okL", "okE"])
+    oks = [i for i, k in enumerate(kinds) if k.startswith("ok")]
     shape = rng.choice(["dag", "dag", "dag", "any", "chain"])
     links = set()
     for a in oks:
@@ -153,6 +153,38 @@ def gen_io(rng, big=False):
             ops.append("close %d" % (rng.randint(1, max(1, nopen)) if rng.random() < 0.9 else rng.randint(0, 9)))
     world = "world %s %s" % (",".join(kinds), ",".join(["%d>%d" % e for e in sorted(links)] + ["%d>%d!" % e for e in sorted(dlinks)]) or "-")
     return world, ops
+
+
+def gen_io_layout(rng):
+    """directed family: a file is opened and closed while another stays open, then a file of a DIFFERENT on-disk layout is
+    opened into the freed ADF_file[] entry and used (the entry must not inherit anything from its previous occupant)"""
+    lay = ["ok", "okL", "okB", "okE"]
+    nk = rng.randint(3, 6)
+    kinds = [rng.choice(lay) for _ in range(nk)]
+    kinds[1] = "okL" if rng.random() < 0.6 else kinds[1]
+    links = sorted({(a, b) for a in range(nk) for b in range(nk) if a != b and rng.random() < 0.25})
+    ops = ["open 0 %s" % rng.choice("rm")]
+    live = [1]
+    nxt = 2
+    for _ in range(rng.randint(2, 6)):
+        x = rng.randrange(1, nk)
+        ops.append("open %d %s" % (x, rng.choice("rm")))
+        c = nxt if len(live) + 1 >= nxt else min(set(range(1, nxt + 1)) - set(live))
+        c = min(set(range(1, 12)) - set(live))
+        live.append(c)
+        tg = [b for (a, b) in links if a == x]
+        if tg and rng.random() < 0.6:
+            ops.append("walk %d %d" % (c, rng.choice(tg)))
+        ops.append("node %d" % c) if False else None
+        if rng.random() < 0.85:
+            ops.append("close %d" % c); live.remove(c)
+            z = rng.choice([i for i in range(1, nk) if kinds[i] != kinds[x]] or [x])
+            ops.append("open %d %s" % (z, rng.choice("rm")))
+            c2 = min(set(range(1, 12)) - set(live)); live.append(c2)
+            tz = [b for (a, b) in links if a == z]
+            ops.append("walk %d %s" % (c2, rng.choice(tz)) if tz else "data %d R8 4 all" % c2)
+    world = "world %s %s" % (",".join(kinds), ",".join("%d>%d" % e for e in links) or "-")
+    return world, [o for o in ops if o]
 
 
 def closing_tail(ops):
@@ -574,6 +606,8 @@ CORPUS_IO = [("world ok,ok 0>1", ["open 0 r", "node 1 1", "close 1"]),
              # a link to an EXISTING file whose stored path is missing there: as the first and as a later use of that file
              ("world ok,ok 0>1!", ["open 0 r", "walk 1 1!", "walk 1 1!", "close 1"]),
              ("world ok,ok,ok 0>1,0>1!,1>2!", ["open 0 m", "walk 1 1", "walk 1 1!", "walk 1 1 2!", "open 2 r", "walk 1 1 2!", "close 2", "close 1"]),
+             # different on-disk layouts in one ADF_file[] entry, one after the other, while another file stays open
+             ("world ok,okL,okB,okE 2>3", ["open 0 r", "open 1 r", "close 2", "open 2 m", "walk 2 3", "close 2", "open 3 r", "open 1 m", "close 2", "open 0 r", "close 1"]),
              # every data type: dimension set-up, full / block / strided write and read
              ("world ok,ok -", ["open 0 m"] + ["data 1 %s %d %s" % (t, n, h) for t in DTYPES for (n, h) in ((7, "all"), (8, "block"), (9, "strided"))] + ["close 1"]),
              ("world ok,ok,badhdr,garbage 0>1,0>2,0>3,1>2", ["open 0 m", "walk 1 2", "walk 1 3", "walk 1 1 2", "open 2 r", "open 3 r", "node 1 1", "close 1"]),
@@ -709,7 +743,7 @@ def run(ck):
 
     # ---------------- cgio / ADF level
     nio = 700 if big else 90
-    cases = list(CORPUS_IO) + [gen_io(ck.rng, big) for _ in range(nio)]
+    cases = list(CORPUS_IO) + [(gen_io_layout(ck.rng) if i % 4 == 3 else gen_io(ck.rng, big)) for i in range(nio)]
     futs = []
     for i, (world, ops) in enumerate(cases):
         futs.append(pool.submit(io_case, hio, world, ops, "adf", ck.work, "ioa%d" % i, variant if res["ok"] else None))
@@ -729,6 +763,8 @@ def run(ck):
                 feats.add("dangling-path")
             if any(o.startswith("data ") for o in r["ops"]):
                 feats.add("data-types")
+            if len(set(k for k in r["world"].split()[1].split(",") if k.startswith("ok"))) > 1:
+                feats.add("mixed-layouts")
             if ml and ml[-1] == "diverge":
                 same = il[:len(ml) - 1] == ml[:-1] and r["outcome"] != "ok"
             else:
